@@ -111,7 +111,7 @@ def _dfs_discipline(ck, repo):
             member = conds[0][0].split(" in ", 1)[0]
             pushes = [c for c in mv.calls(["append", "add"]) if unparse(c.func.value) == container]
             rec_calls = [c for c in mv.calls() if isinstance(c.func, ast.Attribute) and isinstance(c.func.value, ast.Name) and c.func.value.id == "self"
-                         and c.func.attr in cls.methods and any(unparse(a) == container for a in c.args)]
+                         and c.func.attr in cls.methods and any(container in [x.id for x in ast.walk(a) if isinstance(x, ast.Name)] for a in c.args)]
             recs.append((m, container))
             fresh_args = (f"{container} + [{member}]", f"[*{container}, {member}]")
             fresh_push = any(unparse(a) in fresh_args for c in rec_calls for a in c.args)
